@@ -436,3 +436,290 @@ mod c05 {
         kani::cover!(!r, "denied");
     }
 }
+
+mod c01 {
+    use super::*;
+    use crate::crypto::backend::dummy::DummyCrypto;
+    use crate::crypto::{
+        CanonEcPointRef, CanonEcScalarRef, CanonUint320Ref, CryptoSensitiveRef, AEAD_CANON_KEY_LEN, HASH_LEN,
+    };
+    use core::cell::Cell;
+
+    const RANDOM_LEN: usize = 32;
+    const PF_LEN: usize = 65;
+    /// random || public key || fabric id || node id
+    const MSG_MAX: usize = RANDOM_LEN + PKC_CANON_PUBLIC_KEY_LEN + 8 + 8;
+
+    struct MockCrypto {
+        hmac_ok: bool,
+        update_ok: [bool; 4],
+        /// digest written by `finish`; `None` = `finish` fails
+        digest: Option<[u8; HASH_LEN]>,
+        keyed: Cell<u8>,
+        key: Cell<[u8; AEAD_CANON_KEY_LEN]>,
+        updates: Cell<u8>,
+        msg_len: Cell<usize>,
+    }
+
+    /// The bytes fed to the HMAC, in order (written in place: copying a 113-byte array per update is costly).
+    static mut MSG: [u8; MSG_MAX] = [0; MSG_MAX];
+    /// The root certificate (parsed form) handed out by the `Fabric::root_ca` stub.
+    static mut ROOT: [u8; PF_LEN] = [0; PF_LEN];
+
+    fn root_ca_of(_this: &Fabric) -> &[u8] {
+        unsafe { &*core::ptr::addr_of!(ROOT) }
+    }
+
+    impl MockCrypto {
+        fn any() -> Self {
+            Self {
+                hmac_ok: kani::any(),
+                update_ok: kani::any(),
+                digest: kani::any(),
+                keyed: Cell::new(0),
+                key: Cell::new([0; AEAD_CANON_KEY_LEN]),
+                updates: Cell::new(0),
+                msg_len: Cell::new(0),
+            }
+        }
+    }
+
+    struct MockHmac<'a> {
+        owner: &'a MockCrypto,
+    }
+
+    impl Crypto for MockCrypto {
+        type Rand<'a> = DummyCrypto where Self: 'a;
+        type WeakRand<'a> = DummyCrypto where Self: 'a;
+        type Hash<'a> = DummyCrypto where Self: 'a;
+        type Hash1<'a> = DummyCrypto where Self: 'a;
+        type Hmac<'a> = MockHmac<'a> where Self: 'a;
+        type Kdf<'a> = DummyCrypto where Self: 'a;
+        type PbKdf<'a> = DummyCrypto where Self: 'a;
+        type Aead<'a> = DummyCrypto where Self: 'a;
+        type PublicKey<'a> = DummyCrypto where Self: 'a;
+        type SecretKey<'a> = DummyCrypto where Self: 'a;
+        type SigningSecretKey<'a> = DummyCrypto where Self: 'a;
+        type EcScalar<'a> = DummyCrypto where Self: 'a;
+        type EcPoint<'a> = DummyCrypto where Self: 'a;
+
+        fn rand(&self) -> Result<Self::Rand<'_>, Error> { unimplemented!() }
+        fn weak_rand(&self) -> Result<Self::WeakRand<'_>, Error> { unimplemented!() }
+        fn hash(&self) -> Result<Self::Hash<'_>, Error> { unimplemented!() }
+        fn hash1(&self) -> Result<Self::Hash1<'_>, Error> { unimplemented!() }
+
+        fn hmac<const KEY_LEN: usize>(&self, key: CryptoSensitiveRef<'_, KEY_LEN>) -> Result<Self::Hmac<'_>, Error> {
+            self.keyed.set(self.keyed.get().saturating_add(1));
+            if KEY_LEN == AEAD_CANON_KEY_LEN {
+                let mut k = [0u8; AEAD_CANON_KEY_LEN];
+                k.copy_from_slice(&key.access()[..]);
+                self.key.set(k);
+            }
+            if self.hmac_ok {
+                Ok(MockHmac { owner: self })
+            } else {
+                Err(ErrorCode::InvalidData.into())
+            }
+        }
+
+        fn kdf(&self) -> Result<Self::Kdf<'_>, Error> { unimplemented!() }
+        fn pbkdf(&self) -> Result<Self::PbKdf<'_>, Error> { unimplemented!() }
+        fn aead(&self) -> Result<Self::Aead<'_>, Error> { unimplemented!() }
+        fn pub_key(&self, _key: CanonPkcPublicKeyRef<'_>) -> Result<Self::PublicKey<'_>, Error> { unimplemented!() }
+        fn secret_key(&self, _key: CanonPkcSecretKeyRef<'_>) -> Result<Self::SecretKey<'_>, Error> { unimplemented!() }
+        fn generate_secret_key(&self) -> Result<Self::SecretKey<'_>, Error> { unimplemented!() }
+        fn singleton_singing_secret_key(&self) -> Result<Self::SigningSecretKey<'_>, Error> { unimplemented!() }
+        fn ec_scalar(&self, _scalar: CanonEcScalarRef<'_>) -> Result<Self::EcScalar<'_>, Error> { unimplemented!() }
+        fn ec_scalar_mod_p(&self, _uint: CanonUint320Ref<'_>) -> Result<Self::EcScalar<'_>, Error> { unimplemented!() }
+        fn generate_ec_scalar(&self) -> Result<Self::EcScalar<'_>, Error> { unimplemented!() }
+        fn ec_point(&self, _point: CanonEcPointRef<'_>) -> Result<Self::EcPoint<'_>, Error> { unimplemented!() }
+        fn ec_generator_point(&self) -> Result<Self::EcPoint<'_>, Error> { unimplemented!() }
+    }
+
+    impl Digest<HASH_LEN> for MockHmac<'_> {
+        fn update(&mut self, data: &[u8]) -> Result<(), Error> {
+            let n = self.owner.updates.get();
+            self.owner.updates.set(n.saturating_add(1));
+            let pos = self.owner.msg_len.get();
+            if pos + data.len() <= MSG_MAX {
+                let m = unsafe { &mut *core::ptr::addr_of_mut!(MSG) };
+                m[pos..pos + data.len()].copy_from_slice(data);
+            }
+            self.owner.msg_len.set(pos + data.len());
+            if (n as usize) < 4 && self.owner.update_ok[n as usize] {
+                Ok(())
+            } else {
+                Err(ErrorCode::InvalidData.into())
+            }
+        }
+
+        fn finish_current(&mut self, _out: &mut CryptoSensitive<HASH_LEN>) -> Result<(), Error> { unimplemented!() }
+
+        fn finish(self, out: &mut CryptoSensitive<HASH_LEN>) -> Result<(), Error> {
+            match self.owner.digest {
+                Some(d) => {
+                    out.load_from_array(&d);
+                    Ok(())
+                }
+                None => Err(ErrorCode::InvalidData.into()),
+            }
+        }
+    }
+
+    /// A fabric of which only the fields read by `is_dest_id` matter (all of them arbitrary); its root certificate
+    /// is handed out by the `root_ca` stub.
+    fn fabric(fab_idx: u8, symbolic: bool) -> Fabric {
+        let mut ipk = KeySet::new();
+        if symbolic {
+            ipk.op_key = CryptoSensitive::from(kani::any::<[u8; AEAD_CANON_KEY_LEN]>());
+            ipk.epoch_key = CryptoSensitive::from(kani::any::<[u8; AEAD_CANON_KEY_LEN]>());
+        }
+        Fabric {
+            fab_idx: NonZeroU8::new(fab_idx).unwrap(),
+            node_id: if symbolic { kani::any() } else { 0 },
+            fabric_id: if symbolic { kani::any() } else { 0 },
+            vendor_id: if symbolic { kani::any() } else { 0 },
+            compressed_fabric_id: if symbolic { kani::any() } else { 0 },
+            secret_key: crate::crypto::PKC_SECRET_KEY_ZEROED,
+            root_ca: Vec::new(),
+            icac_or_vvsc: Vec::new(),
+            vvsc_set: false,
+            noc: Vec::new(),
+            ipk,
+            label: String::new(),
+            acl: Vec::new(),
+            #[cfg(feature = "groups")]
+            groups: Skippable::new(Groups::new()),
+            vid_verification_statement: Vec::new(),
+        }
+    }
+
+    // TIER: thorough
+    // KIND: bounded (initiator random of 32 bytes as every caller passes; target of 0..=40 bytes)
+    #[kani::proof]
+    #[kani::unwind(34)]
+    #[kani::stub(crate::cert::CertRef::pubkey, crate::cert::verif_kani::c19::pf_pubkey)]
+    #[kani::stub(crate::fabric::Fabric::root_ca, root_ca_of)]
+    fn c01_is_dest_id_contract() {
+        // root certificate in parsed form: byte 42 = outcome of `pubkey()` (0 fails, 1 short, else 65 bytes)
+        let root: [u8; PF_LEN] = kani::any();
+        unsafe { ROOT = root };
+        let f = fabric(1, true);
+        let crypto = MockCrypto::any();
+        let random: [u8; RANDOM_LEN] = kani::any();
+        let target_buf: [u8; 40] = kani::any();
+        let target_len: usize = kani::any();
+        kani::assume(target_len <= 40);
+        let target = &target_buf[..target_len];
+
+        let r = f.is_dest_id(&crypto, &random, target);
+        let ok = r.is_ok();
+
+        let pubkey_len = match root[42] { 0 => None, 1 => Some(PKC_CANON_PUBLIC_KEY_LEN - 1), _ => Some(PKC_CANON_PUBLIC_KEY_LEN) };
+        let mac_computed = crypto.hmac_ok
+            && crypto.update_ok[0]
+            && pubkey_len.is_some()
+            && crypto.update_ok[1]
+            && crypto.update_ok[2]
+            && crypto.update_ok[3]
+            && crypto.digest.is_some();
+        // same length and same bytes
+        let equal = match crypto.digest {
+            Some(d) => target_len == HASH_LEN && d[..] == target_buf[..HASH_LEN],
+            None => false,
+        };
+        kani::assert(ok == (mac_computed && equal), "C01.dest_id.ok_iff_mac_equals_target");
+        if mac_computed && !equal {
+            kani::assert(matches!(&r, Err(e) if e.code() == ErrorCode::NotFound), "C01.dest_id.mismatch_is_not_found");
+        }
+        if ok {
+            kani::assert(crypto.keyed.get() == 1 && crypto.key.get() == *f.ipk.op_key.access(), "C01.dest_id.keyed_with_the_fabrics_ipk");
+            let pk = pubkey_len.unwrap();
+            let m = unsafe { MSG };
+            kani::assert(crypto.updates.get() == 4 && crypto.msg_len.get() == RANDOM_LEN + pk + 16, "C01.dest_id.message_length");
+            let i: usize = kani::any();
+            kani::assume(i < RANDOM_LEN + pk + 16);
+            let expect = if i < RANDOM_LEN {
+                random[i]
+            } else if i < RANDOM_LEN + pk {
+                root[i - RANDOM_LEN]
+            } else if i < RANDOM_LEN + pk + 8 {
+                (f.fabric_id >> (8 * (i - RANDOM_LEN - pk))) as u8
+            } else {
+                (f.node_id >> (8 * (i - RANDOM_LEN - pk - 8))) as u8
+            };
+            kani::assert(m[i] == expect, "C01.dest_id.mac_over_random_rootkey_fabricid_nodeid");
+        }
+
+        kani::cover!(ok, "destination id matches");
+        kani::cover!(mac_computed && target_len == HASH_LEN && !ok, "same length, different value");
+        kani::cover!(mac_computed && target_len == HASH_LEN - 1, "shorter target refused");
+        kani::cover!(!mac_computed, "primitive failure refused");
+    }
+
+    static mut VERDICT: [bool; MAX_FABRICS] = [false; MAX_FABRICS];
+    static mut ASKED: [u8; MAX_FABRICS] = [0; MAX_FABRICS];
+    static mut ARGS_OK: bool = true;
+    static mut RANDOM_PTR: *const u8 = core::ptr::null();
+    static mut TARGET_PTR: *const u8 = core::ptr::null();
+
+    /// Contract of `is_dest_id` (proved above) as seen by `get_by_dest_id`: some verdict per fabric.
+    fn is_dest_id_by_contract<C: Crypto>(this: &Fabric, _crypto: C, random: &[u8], target: &[u8]) -> Result<(), Error> {
+        let i = (this.fab_idx.get() - 1) as usize;
+        unsafe {
+            ASKED[i] = ASKED[i].saturating_add(1);
+            ARGS_OK = ARGS_OK && random.as_ptr() == RANDOM_PTR && target.as_ptr() == TARGET_PTR && random.len() == RANDOM_LEN && target.len() == HASH_LEN;
+            if VERDICT[i] { Ok(()) } else { Err(ErrorCode::NotFound.into()) }
+        }
+    }
+
+    /// `get_by_dest_id` over every table size up to the capacity `MAX_FABRICS` (5 in this configuration). The
+    /// fabrics' contents are irrelevant here (the verdict per fabric is the stubbed contract), only their identity.
+    // TIER: thorough
+    // KIND: complete
+    #[kani::proof]
+    #[kani::unwind(8)]
+    #[kani::stub(crate::fabric::Fabric::is_dest_id, is_dest_id_by_contract)]
+    fn c01_get_by_dest_id_contract() {
+        let n: usize = kani::any();
+        kani::assume(n <= MAX_FABRICS);
+        let mut table: Vec<Fabric, MAX_FABRICS> = Vec::new();
+        let mut i = 0;
+        while i < MAX_FABRICS {
+            let _ = table.push(fabric(i as u8 + 1, false));
+            i += 1;
+        }
+        unsafe { table.set_len(n) };
+        let fabrics = Fabrics { fabrics: table };
+        let crypto = MockCrypto::any();
+        let random: [u8; RANDOM_LEN] = kani::any();
+        let target: [u8; HASH_LEN] = kani::any();
+        let verdict: [bool; MAX_FABRICS] = kani::any();
+        unsafe {
+            VERDICT = verdict;
+            RANDOM_PTR = random.as_ptr();
+            TARGET_PTR = target.as_ptr();
+        }
+
+        let found = fabrics.get_by_dest_id(&crypto, &random, &target).map(|f| (f.fab_idx.get() - 1) as usize);
+
+        let mut first = None;
+        let mut k = 0;
+        while k < MAX_FABRICS {
+            if k < n && verdict[k] && first.is_none() {
+                first = Some(k);
+            }
+            k += 1;
+        }
+        kani::assert(found == first, "C01.get_by_dest_id.first_matching_fabric_or_none");
+        kani::assert(match found { Some(i) => i < n && verdict[i], None => true }, "C01.get_by_dest_id.only_a_fabric_whose_dest_id_matches");
+        kani::assert(unsafe { ARGS_OK }, "C01.get_by_dest_id.passes_random_and_target_through");
+
+        kani::cover!(found == Some(0), "first fabric");
+        kani::cover!(found == Some(MAX_FABRICS - 1), "last fabric of a full table");
+        kani::cover!(found.is_none() && n == MAX_FABRICS, "no fabric of a full table matches");
+        kani::cover!(n == 0, "empty table");
+        // the table is not dropped: dropping zeroises every key of every fabric, which is not under contract here
+        core::mem::forget(fabrics);
+    }
+}
